@@ -42,7 +42,8 @@ MANIFEST = dict(
          "parentheses of the table is read back as itself. C10_parens: redundant parentheses / alternative spellings never "
          "change the result. C10_sound_core + C10_characterised + C10_sound_seq (expressions, plain lets, procedure calls), "
          "C10_sound_type / C10_sound_dexpr (type annotations, on ALL token lists) and C10_sound_statement / C10_full_partial "
-         "(EVERY statement form: let with annotation and decorators, fn, dimension, unit, use, struct, `;`-separated programs): "
+         "(EVERY statement form: let with annotation and decorators, fn, dimension, unit, use, struct, `;`-separated programs; "
+         "C10_characterised_full: both directions, acceptance characterised exactly): "
          "on token lists without line-break tokens and trailing commas (and without the degenerate type-parameter spellings "
          "`<>` after fn / struct names and `<A,>`), whatever the parser accepts IS the print of well-formed trees and denotes "
          "them (acceptance characterised exactly: nothing outside the grammar is accepted or reinterpreted). C10_fuel: the "
@@ -73,7 +74,7 @@ THEOREMS = ["C10_roundtrip", "C10_roundtrip_stmt", "C10_roundtrip_type", "C10_ro
             "C10_roundtrip_def", "C10_roundtrip_program",
             "C10_precedence", "C10_parens", "C10_fuel", "C10_sound_core",
             "C10_characterised", "C10_sound_seq", "C10_sound_type", "C10_sound_dexpr",
-            "C10_sound_statement", "C10_full_partial",
+            "C10_sound_statement", "C10_full_partial", "C10_characterised_full",
             "C10_optable", "C10_lex_tables", "C10_lex_number", "C10_lex_number_sound",
             "C10_lex_ident", "C10_lex_ident_sound"]
 ALLOWED_AXIOMS = []
